@@ -114,7 +114,7 @@ func runC13(c *fw.Ctx, idx int) fw.Result {
 		vp := gen.DefaultVarProfile()
 		vp.Recur = true
 		vp.PSub = 0.03
-		opts := gen.AnnoOpts{MaxFeats: 4, AllowUnnamed: true, AllowSlip: true, SplitCodons: true, Rotate: true, NoStop: true}
+		opts := gen.AnnoOpts{MaxFeats: 4, AllowUnnamed: true, AllowSlip: true, SplitCodons: true, Rotate: true, NoStop: true, QuoteNames: true}
 		if form == "fasta" && idx%120 == 13 {
 			// a number of sequences with a large power of two in it: frequencies k/n that sit exactly
 			// on a half of the 9th printed decimal (1/1024 = 0.0009765625)
